@@ -6,6 +6,7 @@ import (
 	"database/sql"
 
 	"github.com/go-spatial/geom"
+	"github.com/go-spatial/geom/cmp"
 	"github.com/go-spatial/geom/encoding/gpkg"
 	"github.com/mattn/go-sqlite3"
 )
@@ -21,7 +22,7 @@ func init() {
 	}
 	extentOf := func(blob []byte) *geom.Extent {
 		sb, err := gpkg.DecodeGeometry(blob)
-		if err != nil || sb == nil || sb.Geometry == nil {
+		if err != nil || sb == nil || sb.Geometry == nil || cmp.IsEmptyGeo(sb.Geometry) {
 			return nil
 		}
 		ext, err := geom.NewExtentFromGeometry(sb.Geometry)
